@@ -179,7 +179,7 @@ class C20(Prop):
             for n in range(1, full + 1):
                 for h in itertools.product(letters, repeat=n):
                     yield ["c20.hist", a, 0, [alpha[c] for c in h]]
-            for _ in range(1200 if quick else 6000):
+            for _ in range(4000 if quick else 8000):
                 h = [rng.choice(letters) for _ in range(full + 1 if quick else rng.randint(5, 7))]
                 yield ["c20.hist", a, 0 if (a < 3 or rng.random() < 0.5) else 1, [alpha[c] for c in h]]
             if a >= 3:
@@ -245,7 +245,7 @@ class C20(Prop):
                     yield ["c20.hist", a, 0 if a < 3 or rng.random() < 0.6 else 1, ops]
 
         # ---- D. long random histories following connect-go's pool protocol ---------------------------
-        for _ in range(600 if quick else 6000):
+        for _ in range(1500 if quick else 8000):
             a = rng.choice(ALGS)
             ops, k, sinks = [], 0, []
             for _s in range(rng.randint(2, 7)):
